@@ -156,24 +156,46 @@ fn tmpdir() -> std::path::PathBuf {
 }
 
 fn do_span(f: &[&str]) -> String {
-    let src = unhex(f[1]);
-    let q: Vec<u32> = f[2..6].iter().map(|x| x.parse().unwrap()).collect();
+    // span <mode> <xsrc> ls cs le ce      mode: ok | missing | dir | nonutf8 | stale
+    let mode = f[1];
+    let src = unhex(f[2]);
+    let q: Vec<u32> = f[3..7].iter().map(|x| x.parse().unwrap()).collect();
     let dir = tmpdir();
-    std::fs::write(dir.join("span_src.rs"), &src).unwrap();
+    let path = dir.join("span_src.rs");
+    let _ = std::fs::remove_file(&path);
+    let _ = std::fs::remove_dir(&path);
     verif::clear_source_cache();
+    match mode {
+        "ok" => std::fs::write(&path, &src).unwrap(),
+        "missing" => {}
+        "dir" => std::fs::create_dir(&path).unwrap(),
+        "nonutf8" => std::fs::write(&path, [0x66u8, 0xff, 0xfe, 0x0a]).unwrap(),
+        "stale" => {
+            // the file is read and cached, then replaced by something shorter
+            std::fs::write(&path, &src).unwrap();
+            let mut warm = ErrorReport::new(dir.to_str().unwrap(), "span_src.rs");
+            warm.push(node(NodeKind::Wildcard, (1, 0, 1, 1)), "W".into(), None);
+            let _ = std::panic::catch_unwind(std::panic::AssertUnwindSafe(|| format!("{}", warm)));
+            std::fs::write(&path, b"x").unwrap();
+        }
+        m => panic!("mode {m}"),
+    }
     let mut report = ErrorReport::new(dir.to_str().unwrap(), "span_src.rs");
     let nd = node(NodeKind::Wildcard, (q[0], q[1], q[2], q[3]));
     report.push(nd, "ACTUAL".into(), None);
     let _ = verif::take_spans();
     let r = std::panic::catch_unwind(std::panic::AssertUnwindSafe(|| format!("{}", report)));
     let spans = verif::take_spans();
+    let _ = std::fs::remove_file(&path);
+    let _ = std::fs::remove_dir(&path);
     match r {
         Ok(text) => {
             let hdr = text.contains("assert_struct! failed");
             let lbl = text.contains("got ACTUAL");
             match spans.as_slice() {
                 [(s, e)] => format!("span {s} {e} hdr={} lbl={}", hdr as u8, lbl as u8),
-                _ => format!("nospan hdr={} lbl={}", hdr as u8, lbl as u8),
+                [] => format!("fallback {}", hex(text.as_bytes())),
+                _ => format!("MULTISPAN hdr={} lbl={}", hdr as u8, lbl as u8),
             }
         }
         Err(_) => match spans.as_slice() {
@@ -184,7 +206,7 @@ fn do_span(f: &[&str]) -> String {
 }
 
 fn main() {
-    std::panic::set_hook(Box::new(|_| {}));
+    if std::env::var("RT_QUIET").is_ok() { std::panic::set_hook(Box::new(|_| {})); }
     let stdin = std::io::stdin();
     let out = std::io::stdout();
     let mut out = std::io::BufWriter::new(out.lock());
@@ -202,6 +224,18 @@ fn main() {
                 format!("{r}")
             }
             "span" => do_span(&f),
+            "fsclear" => {
+                // remove everything the previous layout created under RT_TMP/fs
+                let _ = std::fs::remove_dir_all(tmpdir().join("fs"));
+                "ok".into()
+            }
+            "fs" => {
+                let p = std::path::PathBuf::from(unhex_s(f[1]));
+                assert!(p.starts_with(tmpdir().join("fs")), "fs path outside RT_TMP/fs");
+                std::fs::create_dir_all(p.parent().unwrap()).unwrap();
+                std::fs::write(&p, b"// file\n").unwrap();
+                "ok".into()
+            }
             "abspath" => {
                 let r = verif::absolute_source_path(&unhex_s(f[1]), &unhex_s(f[2]));
                 hex(r.to_str().unwrap().as_bytes())
